@@ -157,7 +157,7 @@ class ContractMixin:
                             todo.append((f, dc, fty))
             for f, dc, fty in todo:
                 arr = self.heap_array(st, (dc, f), fty)
-                if guard == 'ALL':
+                if isinstance(guard, str) and guard == 'ALL':
                     st.heap[(dc, f)] = z3.Const(self.fresh_sym('H_%s' % f), arr.sort())
                     continue
                 nv = fresh(fty, 'hv_' + f)
@@ -169,7 +169,7 @@ class ContractMixin:
         if self.frame is None:
             return
         for ref, field, guard in locs:
-            if guard == 'ALL':
+            if isinstance(guard, str) and guard == 'ALL':
                 ok = any(isinstance(x[0], str) and x[0] == 'ALL' and x[2] == ref.ty.cls
                          and (x[1] is None or x[1] == field) for x in self.frame)
                 self.oblige(st, z3.BoolVal(ok), 'frame', 'call-%s:*%s' % (cname.split('.')[-1], ref.ty.cls), node=node,
@@ -454,6 +454,21 @@ class ContractMixin:
                 else:
                     outs.append((s2, SV(TBool, v.t >= self.old_state.alloc)))
             return outs
+        if name == 'all_new':
+            # every object of the class allocated since the pre-state satisfies the predicate
+            if self.old_state is None:
+                raise OutsideSubset('all_new() without a pre-state')
+            cls = self.classes.canon(e.args[0].value)
+            lam = e.args[1]
+            r = fresh(TRef(cls), lam.args.args[0].arg)
+            s2 = st.copy()
+            s2.env[lam.args.args[0].arg] = r
+            body = self.eval_bool_total(s2, lam.body)
+            for f in s2.facts:
+                if not _mentions(f, r.t):
+                    st.fact(f)
+            rng = z3.And(r.t >= self.old_state.alloc, r.t < st.alloc, self.isinstance_term(st, r, cls))
+            return [(st, SV(TBool, z3.ForAll([r.t], z3.Implies(rng, body))))]
         if name == 'invariant_of':
             # the class invariants of another object (representation invariant as a predicate)
             outs = []
